@@ -44,19 +44,7 @@ def concrete_run(contract, tier, limit=None):
     return n, first
 
 
-def replay_contract_case(contracts_module, module, qualname, label):
-    """Replayer (runs in the clean interpreter): re-run one concrete case of a contract."""
-    import importlib
-    importlib.import_module(contracts_module)
-    c = REGISTRY[(module, qualname)]
-    for lab, thunk in c.concrete('thorough'):
-        if lab == label:
-            try:
-                ok, obs, exp = thunk()
-            except Exception as e:
-                ok, obs, exp = False, '%s: %s' % (type(e).__name__, str(e)[:200]), 'no exception'
-            return dict(failed=not ok, observed=obs, expected=exp)
-    return dict(failed=False, error='label %r not found' % label)
+from pyvc.replay import replay_contract_case   # noqa: E402,F401
 
 
 def run_contracts(ctx, contracts, contracts_module):
@@ -92,7 +80,7 @@ def run_contracts(ctx, contracts, contracts_module):
                 ctx.notes.append('ENGINE UNSOUND?: %s proved but fails concretely at %s' % (fn, label))
             ctx.confirm_and_report(
                 '%s:concrete' % c.key_name, 'call',
-                dict(module='pyvc.run', func='replay_contract_case',
+                dict(module='pyvc.replay', func='replay_contract_case',
                      kwargs=dict(contracts_module=contracts_module, module=c.module,
                                  qualname=c.key_name, label=label)),
                 canonical_input=dict(function=fn, case=label), function=fn,
